@@ -125,8 +125,13 @@ def setup_recursive_safe_function(
             if fn_name:
                 _fn_name = fn_name.format(cls_name=tp.name)
             else:
+                # Note: a single field can contain more than one generic type
+                # of the same kind, e.g. `tuple[Literal[1], Literal[2]]`, so
+                # the field index alone does not identify the function; also
+                # add the number of functions generated so far, which is
+                # unique within the enclosing (main) dataclass.
                 _fn_name = (
-                    f'_load_{cls_name}_{tp_name}_{tp.field_i}' if is_generic
+                    f'_load_{cls_name}_{tp_name}_{tp.field_i}_{len(recursion_guard)}' if is_generic
                     else f'_load_{cls_name}_{tp_name}_{tp.name}'
                 )
 
